@@ -10,6 +10,7 @@ import (
 	"github.com/google/osv-scalibr/detector"
 	"github.com/google/osv-scalibr/extractor"
 	"github.com/google/osv-scalibr/extractor/filesystem"
+	"github.com/google/osv-scalibr/extractor/standalone"
 	scalibrfs "github.com/google/osv-scalibr/fs"
 	"github.com/google/osv-scalibr/internal/verifrt"
 	"github.com/google/osv-scalibr/internal/verifrt/fake"
@@ -122,6 +123,9 @@ func VerifDetectors() {
 					indexOK = false
 				}
 			}
+			if got := px.GetSpecific("standalone-pkg", purl.TypeGeneric); len(got) != 1 {
+				indexOK = false
+			}
 			var out []*detector.Finding
 			for k, s := range fs2 {
 				out = append(out, s.build(name+string(rune('0'+k))))
@@ -133,8 +137,15 @@ func VerifDetectors() {
 		}
 		dets = append(dets, det)
 	}
+	// a standalone extractor contributes one more package (with a PURL) to the same scan
+	sa := &fake.Standalone{ExName: "sa"}
+	sa.OnExtract = func(context.Context, *standalone.ScanInput) (inventory.Inventory, error) {
+		return inventory.Inventory{Packages: []*extractor.Package{{Name: "standalone-pkg", Version: "1", Locations: []string{"proc"}}}}, nil
+	}
+	nWithPURL++
 	cfg := &scalibr.ScanConfig{
 		FilesystemExtractors: []filesystem.Extractor{ex},
+		StandaloneExtractors: []standalone.Extractor{sa},
 		Capabilities:         &plugin.Capabilities{},
 		ScanRoots:            []*scalibrfs.ScanRoot{{FS: &symfs.FS{Root: root}}},
 	}
